@@ -175,6 +175,13 @@ class _TabulationSection(object):
       cutoff_rho = self.cutoff_rho,
       nrho = self.nrho)
 
+def _finite_float(v):
+  """Convert `v` to float, refusing values that are not finite numbers ('nan', 'inf'): tabulated data must be actual numbers."""
+  f = float(v)
+  if f != f or f in (float("inf"), float("-inf")):
+    raise ValueError("value is not a finite number: '{}'".format(v))
+  return f
+
 class _TableFormSection(object):
   """Extracts the [Table-Form:NAME] sections from configuration file.
 
@@ -214,12 +221,12 @@ class _TableFormSection(object):
     y_string = section["y"]
 
     try:
-      x = [float(v) for v in x_string.split()]
+      x = [_finite_float(v) for v in x_string.split()]
     except ValueError as e:
       raise ConfigParserException("Error converting value into a float whilst parsing the 'x' entry of '{}': {}".format(section_name, e.args[0]))
 
     try:
-      y = [float(v) for v in y_string.split()]
+      y = [_finite_float(v) for v in y_string.split()]
     except ValueError as e:
       raise ConfigParserException("Error converting value into a float whilst parsing the 'y' entry of '{}': {}".format(section_name, e.args[0]))
 
@@ -232,7 +239,7 @@ class _TableFormSection(object):
     xy_string = section["xy"]
 
     try:
-      xy = [float(v) for v in xy_string.split()]
+      xy = [_finite_float(v) for v in xy_string.split()]
     except ValueError as e:
       raise ConfigParserException("Error converting value into a float whilst parsing the 'xy' entry of '{}': {}".format(section_name, e.args[0]))
 
